@@ -1,8 +1,15 @@
 /-
-Helper lemmas for C11 (partial commits).
+Helper lemmas for C11 (partial commits).  The proof is split over
+* `PartialStore` — tree-independent facts about `batchInsert` inside a transaction: the database is
+  not touched, epochs of the written versions, new keys (one generic induction through the code);
+* `PartialInv`   — the transaction invariant "the as-of-`e` view of every pre-existing key is
+  preserved" and the three kinds of writes that preserve it;
+* `PartialMain`, `PartialCases`, `PartialRoot` — the induction of C01b (`Lemmas/Insert*.lean`)
+  replayed with the invariant threaded through.
 -/
 import AkdModel.Insert
 import AkdModel.Thm.C01b
 import AkdModel.Thm.C13
+import AkdModel.Lemmas.PartialStore
 namespace Akd
 end Akd
